@@ -75,10 +75,10 @@ var mustCloneSites = []mustClone{
 
 // reviewed contexts of the non-cloning helper (aliasing impossible or the consumer copies)
 var nonCloningReviewed = []struct{ fn, path, why string }{
-	{"funcContext.translateExpr", "type:*ast.BinaryExpr/e.Op:token.EQL", "comparison operands are only read"},
+	{"funcContext.translateExpr", "type:*ast.BinaryExpr/_.Op:token.EQL", "comparison operands are only read"},
 	{"funcContext.translateExpr", "type:*ast.IndexExpr/type:*types.Map", "map lookup key is hashed by keyFor, not stored"},
-	{"funcContext.translateBuiltin", `name:"panic"`, "the panic value is boxed into an interface (see C07.box)"},
-	{"funcContext.translateBuiltin", `name:"delete"`, "the deleted key is hashed by keyFor, not stored"},
+	{"funcContext.translateBuiltin", `_:"panic"`, "the panic value is boxed into an interface (see C07.box)"},
+	{"funcContext.translateBuiltin", `_:"delete"`, "the deleted key is hashed by keyFor, not stored"},
 	{"funcContext.translateExprSlice", "", "append elements are copied by $copyArray, print operands are only read"},
 	{"funcContext.translateStmt", "type:*ast.AssignStmt", "assignment to the blank identifier discards the value"},
 	{"funcContext.translateResults", "", "results are copied by the consumer of the call (assignment, argument passing)"},
